@@ -733,8 +733,8 @@ def check(ck):
                         tags_in.add(A.const_str(b))
             elif isinstance(op, (ast.In, ast.NotIn)) and isinstance(r, (ast.Tuple, ast.List, ast.Set)) and tag_read(l, at):
                 tags_in |= {A.const_str(x) for x in r.elts if A.const_str(x) is not None}
-    ck.ob(R1, dec.key(None, "tags"), tags_out == tags_in and {"datetime", "date", "FunctionReference"} <= tags_out, "type tags agree: %s" % sorted(tags_out) if tags_out == tags_in else
-          "type tags differ: encoder emits %s, decoder handles %s" % (sorted(tags_out), sorted(tags_in)), dec.where())
+    ck.ob(R1, dec.key(None, "tags"), tags_out == tags_in and {"datetime", "date", "FunctionReference"} <= tags_out, "type tags agree: %s" % sorted(tags_out, key=str) if tags_out == tags_in else
+          "type tags differ: encoder emits %s, decoder handles %s (None: a tag that is not a literal)" % (sorted(tags_out, key=str), sorted(tags_in, key=str)), dec.where())
     keys_in = set()
     for n in A.walk_body(dec.node):
         if isinstance(n, ast.Subscript) and A.const_str(n.slice) and _subject_is(dec, n.value, DP):
